@@ -87,9 +87,7 @@ def build(stack, net, cfg):
 def calls(cfgname):
     """(label, callable(obj)) for every operation x keyword-argument combination."""
     key = UK if cfgname == "unicode_keys" else K
-    values = [b"v"]
-    if cfgname in ("utf8", "prefix+noreply_off+utf8"):
-        values.append("café")
+    values = [b"v", "café"]  # the str is legal only under a non-ASCII encoding: every stack must agree on that
     if cfgname in ("serde", "pickle", "legacy_serializer_pair"):
         values += ["text", 17, ("t", 1)]
     out = []
@@ -104,7 +102,7 @@ def calls(cfgname):
         for v in values:
             for expire, noreply, flags in itertools.product((E, 5), (E, True, False), (E, 7)):
                 add(name, key, v, expire=expire, noreply=noreply, flags=flags)
-    for v in values[:2]:
+    for v in (values[0], values[-1]):
         for tok in (b"1", b"99"):
             for expire, noreply, flags in itertools.product((E, 5), (E, True, False), (E, 7)):
                 add("cas", key, v, tok, expire=expire, noreply=noreply, flags=flags)
@@ -119,6 +117,9 @@ def calls(cfgname):
     add("get_many", [key, K2])
     add("gets_many", [K2, key])
     add("get_many", [])
+    add("get_many", [key, K2, key])
+    add("gets_many", [key, key])
+    add("delete_many", [key, key, K2], noreply=False)
     for expire, noreply, flags in itertools.product((E, 5), (E, True, False), (E, 7)):
         add("set_many", {key: values[-1], K2: b"w"}, expire=expire, noreply=noreply, flags=flags)
     for noreply in (E, True, False):
@@ -135,7 +136,16 @@ def calls(cfgname):
     return out
 
 
-def observe(stack, cfg, state, call):
+FIRST_CALLS = [("incr(k,1)", "incr", (K, 1), {"noreply": False}),
+               ("set(k, 2 MiB)", "set", (K, b"x" * (2 * 1024 * 1024)), {"noreply": False}),
+               ("get(k)", "get", (K,), {}),
+               ("cas(k,v,99)", "cas", (K, b"v", b"99"), {"noreply": False})]
+FOLLOW_UPS = [("get(k)", "get", (K,), {}), ("set(m,w)", "set", (K2, b"w"), {"noreply": False}),
+              ("incr(m,1)", "incr", (K2, 1), {"noreply": False}), ("get_many([k,m])", "get_many", ([K, K2],), {}),
+              ("delete(k)", "delete", (K,), {"noreply": False})]
+
+
+def observe(stack, cfg, state, call, first=None):
     label, name, args, kw = call
     net = stacks.new_net(None, servers=(SERVER,))
     srv = net.servers[("tcp",) + SERVER]
@@ -152,13 +162,23 @@ def observe(stack, cfg, state, call):
     obj = build(stack, net, cfg)
     if not hasattr(type(obj), name) and name.startswith("__"):
         return None
+    if first is not None:
+        net.call = 7  # the first call of a two-call sequence: not compared itself
+        try:
+            getattr(obj, first[1])(*first[2], **first[3])
+        except Exception:
+            pass
     net.call = 1
     try:
         f = getattr(obj, name)
         res = ("ret", f(*args, **kw))
     except Exception as e:
         res = ("exc", type(e).__name__)
-    cmds = [c.astuple() if hasattr(c, "astuple") else ("MALFORMED", c.raw) for (call_, cid, c, o) in srv.log if call_ == 1]
+
+    def shorten(t):
+        return tuple((x[:16] + b"...%d" % len(x)) if isinstance(x, bytes) and len(x) > 64 else x for x in t)
+
+    cmds = [shorten(c.astuple()) if hasattr(c, "astuple") else ("MALFORMED", c.raw[:40]) for (call_, cid, c, o) in srv.log if call_ == 1]
     opts = sorted({(e[4], e[5], e[6]) for e in net.events if e[2] == "setsockopt"})
     touts = sorted({(e[2], repr(e[-1])) for e in net.events if e[2] in ("connect", "sendall", "recv")})
     return res, cmds, opts, touts
@@ -205,6 +225,23 @@ def _worker(job, chk):
                 chk.violation(f"{kind}|{stack}.{call[1]}|config={cfgname}|state={state}|args={argnames}",
                               f"{stack}({cfgname}: {cfg}) in state '{state}': {call[0]} {text}",
                               {"config": cfgname, "state": state, "call": call[0], "stack": stack})
+    # two-call sequences on one object: whatever the first call's fate (error reply, oversized item,
+    # plain hit), the follow-up must be sent and answered exactly as on a plain Client
+    if cfgname in ("default", "default_noreply_off", "prefix"):
+        for first in FIRST_CALLS:
+            for fu in FOLLOW_UPS:
+                base = observe("client", cfg, state, fu, first)
+                chk.add()
+                chk.outcome((cfgname, state, first[0], fu[0]))
+                for stack in STACKS:
+                    got = observe(stack, cfg, state, fu, first)
+                    chk.add()
+                    want_cmds = base[1] * 2 if (stack == "retry2" and base[0][0] == "exc") else base[1]
+                    if not same_result(got[0], base[0]) or got[1] != want_cmds:
+                        chk.violation(f"sequence|{stack}.{fu[1]}|after={first[1]}|config={cfgname}|state={state}",
+                                      f"{stack}({cfgname}) in state '{state}': after {first[0]}, {fu[0]} gave {got[0]!r} with commands "
+                                      f"{got[1]!r}; Client gives {base[0]!r} with {base[1]!r}",
+                                      {"config": cfgname, "state": state, "call": fu[0], "stack": stack, "first": first[0]})
     if cfgname == "prefix" and state == "numeric":
         c = calls(cfgname)[5]
         chk.sample({"config": cfgname, "state": state, "call": c[0], "client_observation": repr(observe("client", cfg, state, c))[:300]})
@@ -219,9 +256,14 @@ def run(chk):
 
 def replay(detail):
     cfg = CONFIGS[detail["config"]]
-    call = next(c for c in calls(detail["config"]) if c[0] == detail["call"])
-    base = observe("client", cfg, detail["state"], call)
-    got = observe(detail["stack"], cfg, detail["state"], call)
+    if detail.get("first"):
+        call = next(c for c in FOLLOW_UPS if c[0] == detail["call"])
+        first = next(c for c in FIRST_CALLS if c[0] == detail["first"])
+    else:
+        call = next(c for c in calls(detail["config"]) if c[0] == detail["call"])
+        first = None
+    base = observe("client", cfg, detail["state"], call, first)
+    got = observe(detail["stack"], cfg, detail["state"], call, first)
     print("    Client :", base)
     print("    ", detail["stack"], ":", got)
     if detail["stack"] == "retry2" and base[0][0] == "exc" and not (call[1] == "__getitem__" and base[0][1] == "KeyError"):
